@@ -74,6 +74,7 @@ where
 {
     blobs: Vec<Blob<K>>,
     new_corrupted_blob_count: usize,
+    ignored_blob_count: usize,
     max_blob_id: Option<usize>
 }
 
@@ -692,7 +693,7 @@ where
         trace!("init from existing: {:#?}", files);
         let (existed_corrupted_blob_count, max_corrupted_id) = Self::count_old_corrupted_blobs(&self.inner.config).await;
         let disk_access_sem = self.inner.get_dump_sem();
-        let ReadBlobsResult { mut blobs, max_blob_id, new_corrupted_blob_count} = Self::read_blobs(
+        let ReadBlobsResult { mut blobs, max_blob_id, new_corrupted_blob_count, ignored_blob_count } = Self::read_blobs(
             &files,
             self.inner.iodriver.clone(),
             disk_access_sem,
@@ -714,7 +715,7 @@ where
         blobs.sort_by_key(Blob::id);
 
         let active_blob = if with_active {
-            if blobs.is_empty() && new_corrupted_blob_count > 0 {
+            if blobs.is_empty() && (new_corrupted_blob_count > 0 || ignored_blob_count > 0) {
                 let next = self.inner.next_blob_name()?;
                 Some(Blob::open_new(next, self.inner.iodriver.clone(), self.inner.config.blob()).await?)
             } else {
@@ -758,6 +759,7 @@ where
         config: &Config,
     ) -> Result<ReadBlobsResult<K>> {
         let mut corrupted = 0;
+        let mut ignored = 0;
         let mut max_blob_id: Option<usize> = None;
 
         debug!("read working directory content");
@@ -800,6 +802,7 @@ where
 
                     if config.ignore_corrupted() {
                         error!("{}, cause: {:#}", msg, e);
+                        ignored += 1;
                     } else if Self::should_save_corrupted_blob(&e) {
                         warn!(
                             "Corrupted BLOB detected. Save corrupted blob '{}' to directory '{}'",
@@ -818,7 +821,7 @@ where
                 }
             }
         }
-        Ok(ReadBlobsResult { blobs, new_corrupted_blob_count: corrupted, max_blob_id })
+        Ok(ReadBlobsResult { blobs, new_corrupted_blob_count: corrupted, ignored_blob_count: ignored, max_blob_id })
     }
 
     /// Returns the count of blobs in the corrupted dir and the max id among them
